@@ -566,6 +566,10 @@ acquire_stop(struct AcquireRuntime* self_)
         // already been released, flush it. This takes at most 2 iterations.
         if (video->monitor.reader.id) {
             size_t nbytes;
+            // A region the client still holds is released first. Mapping a
+            // reader that is already mapped is an error that sticks to the
+            // reader and would fail every later acquire_map_read().
+            channel_read_unmap(&video->sink.in, &video->monitor.reader, 0);
             do {
                 struct slice slice =
                   channel_read_map(&video->sink.in, &video->monitor.reader);
